@@ -89,6 +89,7 @@ func mergeRef(sources []feedSource, limit int) []RefItem {
 func scenC11(r *Run) {
 	f := newFedi(r)
 	t := r.W
+	f.QueryURLs = t.Chance(1, 4) // query-routed sources: pages and items differ only in (case-sensitive) queries
 	ns := t.Weighted(1, 3, 4, 3, 2) // 0..4 sources
 	base := simEpoch.Add(-72 * time.Hour)
 	var sources []feedSource
